@@ -2,6 +2,7 @@ package failsafehttp
 
 import (
 	"bytes"
+	"context"
 	"fmt"
 	"io"
 	"net/http"
@@ -72,12 +73,12 @@ func doRequest(request *http.Request, executor failsafe.Executor[*http.Response]
 
 	return executor.GetWithExecution(func(exec failsafe.Execution[*http.Response]) (*http.Response, error) {
 		ctx, cancel := util.MergeContexts(request.Context(), exec.Context())
-		defer cancel(nil)
 		req := request.WithContext(ctx)
 
 		// Get new body for each attempt
 		if bodyFunc != nil {
 			if body, err := bodyFunc(); err != nil {
+				cancel(nil)
 				return nil, err
 			} else {
 				if c, ok := body.(io.ReadCloser); ok {
@@ -88,8 +89,27 @@ func doRequest(request *http.Request, executor failsafe.Executor[*http.Response]
 			}
 		}
 
-		return reqFn(req)
+		resp, err := reqFn(req)
+		if err != nil || resp == nil || resp.Body == nil {
+			cancel(nil)
+			return resp, err
+		}
+		// Canceling the merged context now would interrupt reading of the response body, so release it when the body is closed
+		resp.Body = &cancelOnCloseBody{ReadCloser: resp.Body, cancel: cancel}
+		return resp, nil
 	})
+}
+
+// cancelOnCloseBody releases a request's merged context when the response body is closed.
+type cancelOnCloseBody struct {
+	io.ReadCloser
+	cancel context.CancelCauseFunc
+}
+
+func (b *cancelOnCloseBody) Close() error {
+	err := b.ReadCloser.Close()
+	b.cancel(nil)
+	return err
 }
 
 // bodyReader returns a function that can repeatedly read the untypedBody of an http.Request.
